@@ -10,5 +10,6 @@ Definition dispatch (fn : Z) (t : toks) : toks :=
   else if Z.eqb fn 5 then obs_validate t
   else if Z.eqb fn 6 then obs_file_roundtrip t
   else if Z.eqb fn 7 then obs_get_mapfiles t
+  else if Z.eqb fn 8 then obs_exit_status t
   else bad_input.
 Extraction "../ocaml/cli/model.ml" dispatch.
